@@ -46,6 +46,7 @@ def run(ctx):
         import wiring
         ctx.guard(wiring.builders, ctx, cfg, fs, 'S.strictness', r'^(positional|params::build_positional|params::ParsePositional::<T>::(strict|non_strict|help))$')
         ctx.guard(classes, ctx, cfg, fs)
+        ctx.guard(after_separator, ctx, cfg, fs)
         ctx.guard(helpflag, ctx, cfg, fs)
         import c06, c08, c05
         ctx.guard(c08.keep_only, ctx, lambda: c05.snapshot(ctx, cfg, fs), lambda o: 'restore-on-caught-failure' in o.key, 'R.restore')
@@ -243,6 +244,47 @@ def ret_site(b):
     if not r:
         raise Broken('%s: no return block' % b.path)
     return (r[0], 'term')
+
+def after_separator(ctx, cfg, fs):
+    """two places that talk ABOUT words right of `--` must agree with the parser, which never takes such a word for a name:
+    (1) the "did you mean" helper gives no suggestion for a PosWord - on every route into it (unconsumed item AND missing item);
+    (2) completion's notion of "can stand at a positional place" (Comp::is_pos) excludes flags, arguments and COMMANDS - take_cmd
+    never accepts a PosWord, so a command name offered after `--` could not be typed there."""
+    sg = ctx.look(fs.one(r'^meta_youmean::suggest$'))
+    nx = [c for c in sg.calls() if c.is_(r'Iterator>?::next$') and 'ArgsIter' in c.full]
+    inside = False
+    rty = sg.local_ty(0)
+    somes = [i for i, k, st in sg.stmts() if st['k'] == 'assign' and st['rv']['k'] == 'agg' and st['rv'].get('variant') == 'Some' and sg.local_ty(st['lhs'][0]) == rty]
+    def from_front(sw):
+        rs = provenance(sg, sw.place, sw.discr_site[0], sw.discr_site[1], through=[r'Try>::branch$'])
+        return bool(nx) and bool(rs) and all(r.kind == 'call' and r.call.bb == nx[0].bb for r in rs)
+    for (a_, t_) in variant_edges(sg, 'arg::Arg', 'PosWord', from_front):
+        reach = reachable_edges(sg, t_)
+        if somes and not any(x in reach for x in somes) and all(sg.dominates(a_, x) for x in somes):
+            inside = True
+    ok = inside; why = 'inside suggest(), before anything is compared'
+    if not inside:
+        # the test may live at the call sites instead - then at ALL of them
+        unguarded = []
+        for x in fs.bodies.values():
+            for c in x.calls():
+                if c.is_(r'^meta_youmean::suggest$'):
+                    g = False
+                    for (a_, t_) in variant_edges(x, 'arg::Arg', 'PosWord'):
+                        if c.bb not in reachable_edges(x, t_) and x.dominates(a_, c.bb):
+                            g = True
+                    if not g:
+                        unguarded.append(x.where(c.bb))
+        ok = not unguarded and bool([1 for x in fs.bodies.values() for c in x.calls() if c.is_(r'^meta_youmean::suggest$')])
+        why = 'at the call sites; unguarded: %s' % (unguarded or 'none')
+    ctx.ob('K.classes', 'suggest:nothing-for-strictly-positional-words', ok, 'no typo suggestion is computed for a word right of `--`: the PosWord test sits %s' % why, where=sg.where(), cfg=cfg)
+    cands = fs.find(r'^complete_gen::Comp::is_pos$', required=False)
+    if cands:
+        ip = ctx.look(cands[0])
+        enum, t = enum_const_table(ip)
+        bad = {k_: v_ for k_, v_ in t.items() if k_ in ('Flag', 'Argument', 'Command') and v_ is not False}
+        ctx.ob('K.classes', 'Comp::is_pos:names-are-not-positional', enum == 'complete_gen::Comp' and not bad and all(k_ in t for k_ in ('Flag', 'Argument', 'Command')),
+               'Comp::is_pos = %s (flags, arguments and commands cannot be typed right of `--`)' % {k_: t.get(k_) for k_ in sorted(t)}, where=ip.where(), cfg=cfg)
 
 def classes(ctx, cfg, fs):
     cc = ctx.look(fs.one(r'^error::Message::can_catch$'))
